@@ -85,7 +85,7 @@ def main():
         dst = os.path.join('/verif/seeded', keep)
         os.makedirs(dst, exist_ok=True)
         for f in ('patch.diff', 'demo.py', 'notes.md'):
-            if os.path.exists(os.path.join(seed, f)):
+            if os.path.exists(os.path.join(seed, f)) and os.path.abspath(os.path.join(seed, f)) != os.path.abspath(os.path.join(dst, f)):
                 shutil.copy(os.path.join(seed, f), os.path.join(dst, f))
         meta_path = os.path.join(dst, 'meta.json')
         meta = json.load(open(meta_path)) if os.path.exists(meta_path) else {}
